@@ -78,6 +78,15 @@ CLAIMS = {
         note=NOTE_COMMON + "Soundness and exactness are not theorems yet (partial).",
         technique="Lean 4 proof (zipper invariant) + differential correspondence on instances generated from every structure",
         design="DESIGN.md §5 C08"),
+    'C07': dict(
+        text="Proved for every delimiter set: check_encoding_chars accepts exactly the sets with the five required roles present and all supplied characters (TRUNCATION "
+             "included) pairwise distinct; the header spelled from a set (MSH FIELD MSH-2 FIELD ...) is read back by _split_msh as exactly that set. That every separator "
+             "of the body comes from the set, that every descendant reports it, that parse_message(to_er7()) recovers set and encoding, and the to_mllp framing are "
+             "decided by the correspondence + oracle over random sets and all 720 role permutations of one 6-character set (thorough) on messages built through the API "
+             "(partial: the element graph is modelled under C09-C12).",
+        note=NOTE_COMMON + "Single-character punctuation delimiters not occurring in the header's own values.",
+        technique="Lean 4 proof (case analysis; split/join lemmas) + differential correspondence on API-built messages",
+        design="DESIGN.md §5 C07"),
 }
 
 PENDING = {}
